@@ -22,7 +22,16 @@ def analyze(ctx, want):
                           (r"CompiledDfa as std::convert::From<internal::nfa::Nfa>>::from$", "nfa", "single")):
         fn = F.fn(pat)
         ctx.analysed_fn(fn)
-        ex, paths = run_fn(fn, F, LogModel(), max_paths=6000, desugar=r"Entry::<.*>::or_insert_with|iter::Iterator>::for_each", inline=r"ids::StateSetID::new$")   # any/find are read as terms here; the entry API as the two cases it stands for
+        # (any/find are read as terms here; the entry API as the two cases it stands for; a work list kept as "the ids from
+        # `processed` up to the size of the map" — instead of a queue — is analysed with the counter as a symbol)
+        ex, paths = run_fn(fn, F, LogModel(), max_paths=6000, desugar=r"Entry::<.*>::or_insert_with|iter::Iterator>::for_each", inline=r"ids::StateSetID::new$", worklist_counters=True)
+        counter_form = bool(ex.index_loops) and not list(fn.calls(r"VecDeque::<.*>::(push_back|pop_front)$"))
+
+        def is_counter(v):
+            # the id made of the work-list position: StateSetID::new(index@bbH as _)
+            while v[0] in ("cast",) or (v[0] == "adt" and str(v[1]).startswith("internal::ids::") and len(v[3]) == 1):
+                v = v[2] if v[0] == "cast" else v[3][0]
+            return v[0] == "sym" and str(v[1]).startswith("index@bb")
         if ex.truncated:
             ctx.missing("C02.d", "path enumeration of %s truncated" % fn.name)
             continue
@@ -32,12 +41,13 @@ def analyze(ctx, want):
             ins = p.calls(r"HashMap::<.*>::insert$")
             pb = p.calls(r"VecDeque::<.*>::push_back$")
             ec = p.calls(r"(MultiPatternNfa|Nfa)::epsilon_closure$")
-            if ins and pb and ec:
+            if ins and (pb or counter_form) and ec:
                 k = argval(ins[0], 1)
                 start_arg = ec[0][3][1]
                 ok_start = start_arg == ("int", 0) or S.fstr(start_arg) in ("nfa.start_state",)
                 ok_key = S.mentions(k, lambda x: x == ec[0][4])
-                ok_id = argval(ins[0], 2) == ("int", 0) and argval(pb[0], 1) == ("int", 0)
+                # (counter form: the work list starts at position 0 — that is what made the counter a symbol, see find_index_loops)
+                ok_id = argval(ins[0], 2) == ("int", 0) and (argval(pb[0], 1) == ("int", 0) if pb else counter_form)
                 seeded = ok_start and ok_key and ok_id
                 break
         ob("C02.d", "%s:work-list-seeded-with-the-start-closure-as-state-0" % tag, seeded, "state_map.insert(closure(start), 0); queue.push_back(0)", fn.loc())
@@ -46,6 +56,11 @@ def analyze(ctx, want):
         ok_exit = bool(exits)
         for p in exits:
             pf = [(c, o) for c, o in p.conds if c[0] == "discr" and "pop_front" in S.fstr(c)]
+            if counter_form:
+                # position < number of known closures is false: every known closure was processed
+                gd = [(c, o) for c, o in p.conds if c[0] == "binop" and c[1] == "Lt" and is_counter(c[2]) and re.search(r"HashMap::<.*>::len$|::len$", str(c[3][1]) if c[3][0] == "app" else "")]
+                ok_exit = ok_exit and bool(gd) and gd[-1][1] is False and len(p.conds) == len(gd)
+                continue
             ok_exit = ok_exit and bool(pf) and pf[-1][1] == 0 and len(p.conds) == len(pf)
         ob("C02.d", "%s:exploration-runs-until-the-queue-is-empty" % tag, ok_exit, "%d exit path(s); each leaves the loop only on pop_front() == None" % len(exits), fn.loc())
         # --- d3..d5 inner loop body
@@ -85,13 +100,29 @@ def analyze(ctx, want):
             to = None
             if ok_ins:
                 frm, cc, to = tup[1]
-                ok_from = "pop_front" in S.fstr(frm)
+                ok_from = "pop_front" in S.fstr(frm) or (counter_form and is_counter(frm))
                 ok_cc = tgt is not None and S.fstr(cc) == S.fstr(tgt)[:-2] + ".0"
                 # the id of the target closure: the one stored for it (known closure), or a fresh one that is enqueued and
                 # numbered by the current size of the map (entry().or_insert_with(..), a match on the Entry, ...)
                 i_ent = p.events.index(ent[0]) if ent else 0
                 pbs = [e for e in p.events[i_ent:] if e[0] == "call" and re.search(r"VecDeque::<.*>::push_back$", e[2])]
-                if pbs:
+                newins = [e for e in p.events[i_ent:] if e[0] == "entry-insert"]
+                if counter_form and newins:
+                    # counter form: a new closure needs no enqueueing — it gets the next id (the size of the map), and ids up to
+                    # the size of the map are what the outer loop works through
+                    id_cases.add("new")
+                    x = newins[-1][3]
+                    x = ex.deref_val(p, x) if x[0] == "ref" else x
+                    sized = S.mentions(x, lambda y: y[0] == "app" and re.search(r"HashMap::<.*>::len$", str(y[1])) is not None)
+
+                    def bare(v):
+                        while v[0] in ("cast",) or (v[0] == "adt" and str(v[1]).startswith("internal::ids::") and len(v[3]) == 1):
+                            v = v[2] if v[0] == "cast" else v[3][0]
+                        return v
+                    ok_new = len(newins) == 1 and sized and (to == x or bare(to) == bare(x) or S.mentions(to, lambda y: y == x or y == bare(x)))
+                    ob("C02.d", "%s:new-state-enqueued-and-numbered-by-the-map-size" % tag, ok_new, "new closure stored with id %s; transition target id %s" % (S.fstr(x)[:60], S.fstr(to)[:60]), fn.loc())
+                    ok_to = ok_new
+                elif pbs:
                     id_cases.add("new")
                     x = argval(pbs[-1], 1)
                     sized = S.mentions(x, lambda y: y[0] == "app" and re.search(r"HashMap::<.*>::len$", str(y[1])) is not None)
